@@ -541,3 +541,33 @@ V("C09-yield-generated-order", "C09", ["C09.R2"], [(BASE, "                {col:
 V("C09-no-warning", "C09", ["C09.R3"], [(CONTRASTS, "        if extra_categories:\n            warnings.warn(", "        if False:\n            warnings.warn(")])
 V("C09-levels-not-pinned", "C09", ["C09.R3"], [(CONTRASTS, "        levels if levels is not None else _state.get(\"categories\")", "        levels")])
 V("C09-categorical-unpinned", "C09", ["C09.R3"], [(CONTRASTS, "        data = pandas.Series(pandas.Categorical(data, categories=levels))", "        data = pandas.Series(pandas.Categorical(data))")])
+
+# ----------------------------------------------------------------------------------------- C04
+SCALE = "formulaic/transforms/scale.py"
+POLY = "formulaic/transforms/poly.py"
+BS = "formulaic/transforms/basis_spline.py"
+CS = "formulaic/transforms/cubic_spline.py"
+STATEFUL = "formulaic/utils/stateful_transforms.py"
+FPARSER = "formulaic/parser/types/formula_parser.py"
+V("C04-center-recomputed", "C04", ["C04.R1", "C04.R2"], [(SCALE, '    if "center" not in _state:\n        if isinstance(center, bool) and center:', '    if True:\n        if isinstance(center, bool) and center:')])
+V("C04-scale-guard-inverted", "C04", ["C04.R1"], [(SCALE, '    if "ddof" not in _state:\n        _state["ddof"] = ddof\n    else:\n        ddof = _state["ddof"]', '    if "ddof" in _state:\n        _state["ddof"] = ddof\n    else:\n        ddof = _state["ddof"]')])
+V("C04-scale-notin-equiv", "C04", [], [(SCALE, '    if "scale" not in _state:', '    if not ("scale" in _state):')])
+V("C04-bs-bound-recomputed", "C04", ["C04.R1", "C04.R2"], [(BS, '    if "lower_bound" in _state:\n        lower_bound = float(_state["lower_bound"])\n    elif lower_bound is not None:', '    if lower_bound is not None:')])
+V("C04-bs-knots-recomputed", "C04", ["C04.R1"], [(BS, '    if "knots" not in _state:\n        knots = [] if knots is None else list(knots)', '    if df or "knots" not in _state:\n        knots = [] if knots is None else list(knots)')])
+V("C04-cs-knots-recomputed", "C04", ["C04.R1"], [(CS, '    if "knots" not in _state:\n        if df is None and knots is None:', '    if "knots" not in _state or df is not None:\n        if df is None and knots is None:')])
+V("C04-cs-bounds-always", "C04", ["C04.R1", "C04.R2"], [(CS, "    if key in state:\n        bound = float(state[key])\n    elif default is not None:", "    if default is not None:")])
+V("C04-poly-alpha-lazy", "C04", ["C04.R2"], [(POLY, "        if training and k not in alpha:\n            alpha[k] =", "        if k not in alpha:\n            alpha[k] =")],
+  "a missing coefficient is silently re-estimated from the new data")
+V("C04-poly-training-always", "C04", ["C04.R1"], [(POLY, "    if alpha is None:\n        training = True", "    if alpha is None or degree > 1:\n        training = True")])
+V("C04-contrasts-levels-unpinned", "C04", ["C04.R2"], [(CONTRASTS, '        levels if levels is not None else _state.get("categories")', "        levels")],
+  "levels re-discovered from the new data when not given explicitly")
+V("C04-contrasts-restore-from-data", "C04", ["C04.R1"], [(CONTRASTS, '    _state["categories"] = categories\n', '    _state["categories"] = list(pandas.unique(data))\n')])
+V("C04-center-fresh-state", "C04", ["C04.R1"], [(SCALE, "    return scale(data, scale=False, _state=_state)", "    return scale(data, scale=False, _state={})")])
+V("C04-rehydrate-full", "C04", ["C04.R3"], [("formulaic/materializers/types/scoped_term.py", "                    factor=factor_values[factor.factor.expr],\n                    reduced=factor.reduced,", "                    factor=factor_values[factor.factor.expr],\n                    reduced=False,")])
+V("C04-rehydrate-drops-scale", "C04", ["C04.R3"], [("formulaic/materializers/types/scoped_term.py", "                for factor in self.factors\n            ],\n            scale=self.scale,\n        )\n\n    @property", "                for factor in self.factors\n            ],\n        )\n\n    @property")])
+V("C04-structure-half-reused", "C04", ["C04.R3"], [(BASE, "        if spec.structure:\n            cols = list(self._enforce_structure(cols, spec, drop_rows))", "        if spec.structure and spec.ensure_full_rank:\n            cols = list(self._enforce_structure(cols, spec, drop_rows))")])
+V("C04-base-parser-unsanitised", "C04", ["C04.R4"], [(FPARSER, "        return sanitize_tokens(tokenize(formula))", "        return tokenize(formula)")])
+V("C04-state-key-raw", "C04", ["C04.R4"], [(STATEFUL, "            stateful_nodes[format_expr(node)] = cast(ast.Call, node)", "            stateful_nodes[ast.unparse(node).strip()] = cast(ast.Call, node)")])
+V("C04-evaluate-fresh-state", "C04", ["C04.R4"], [(BASE, "                spec.transform_state,\n                spec,\n                variables=variables,", "                {},\n                spec,\n                variables=variables,")])
+V("C04-getstate-all", "C04", ["C04.R5"], [(SPEC, "            k: v for k, v in self.__dict__.items() if k in self.__dataclass_fields__", "            k: v for k, v in self.__dict__.items() if k != 'transform_state'")])
+V("C04-matrix-reduce-drops-spec", "C04", ["C04.R5"], [("formulaic/model_matrix.py", "        return ModelMatrix, (self.__wrapped__, self._self_model_spec)", "        return ModelMatrix, (self.__wrapped__, None)")])
